@@ -36,6 +36,13 @@ class Gen:
         """returns (thunk building the real object, token string, expected length or None); needvar: the result must contain a
         variable (max/min of plain numbers are Python's builtins, which the property does not talk about)"""
         f, t, l = self.tree0(depth, want, dense_only, needvar)
+        if 'var' not in t and not t.startswith('const'):
+            # an operation between constants is plain matrix arithmetic, not the modeling layer: its value enters the expression as a dense
+            # constant (base sparse matrices do not broadcast a 1 x 1 operand, which the property does not talk about)
+            f0 = f
+            def f(f0=f0):
+                v = f0()
+                return self.cv.matrix(v) if isinstance(v, self.cv.spmatrix) else v
         if needvar and 'var' not in t:
             i = self.rng.choice([i for i, n in enumerate(self.lens) if n == want or want is None] or [0])
             return (lambda: self.vars[i]), 'var %d' % i, self.lens[i]
